@@ -54,12 +54,32 @@ func Apply(x *bk.Exec, s Sym, wk bk.WriterKind) {
 		x.Connect("io", "", wk, s.Arg == "outfirst")
 	case "ioprep":
 		x.Pending = append(x.Pending, x.Prepare("io", "", wk))
+	case "ioadmit-parkdone":
+		// like ioadmit, but the half is parked at the "done" point (after the broker's lock has been
+		// released, before Connect returns), so that whatever the caller does after Connect returns
+		// has not happened yet when the next operation runs
+		for _, a := range x.Pending {
+			if a.Gated("admit", s.Arg) {
+				a.Gate("done", s.Arg)
+				x.Admit(a, s.Arg)
+				break
+			}
+		}
+	case "iodone":
+		for _, a := range x.Pending {
+			for _, d := range a.Dirs() {
+				a.Open("done", d)
+			}
+			x.AwaitReturnIfAllRefused(a)
+		}
 	case "ioadmit":
 		// admit one parked half (Arg: input|output) of the oldest prepared /io attempt that still has it parked
 		for _, a := range x.Pending {
 			if a.Gated("admit", s.Arg) {
 				x.Admit(a, s.Arg)
-				x.AwaitReturnIfAllRefused(a)
+				if !a.Gated("done", "input") && !a.Gated("done", "output") {
+					x.AwaitReturnIfAllRefused(a)
+				}
 				break
 			}
 		}
@@ -122,6 +142,11 @@ func RunHistory(hist []Sym, ochCap int, wk bk.WriterKind, viol func(key, what st
 	x = bk.NewExec(w, func(key, what string) { viol(key, what, x) })
 	for _, s := range hist {
 		Apply(x, s, wk)
+	}
+	for _, a := range x.Pending {
+		for _, d := range a.Dirs() {
+			a.Open("done", d)
+		}
 	}
 	for _, a := range x.Pending {
 		for _, d := range a.Dirs() {
@@ -239,6 +264,17 @@ func directed() [][]Sym {
 			}
 			h := append(append([]Sym{}, base...), prep, firstHalf, Sym{Op: "probe"}, Sym{Op: "endboth", Arg: "infirst"}, second, Sym{Op: "probe"}, in("n"), o("n"), Sym{Op: "probe"})
 			out = append(out, h)
+		}
+	}
+	// one side refused and still on its way out of Connect when the other side is decided
+	for _, base := range [][]Sym{{io}, {in("k"), o("k")}, {in("k")}, {o("k")}} {
+		for _, firstHalf := range []string{"input", "output"} {
+			second := "output"
+			if firstHalf == "output" {
+				second = "input"
+			}
+			out = append(out, append(append([]Sym{}, base...), prep, Sym{Op: "ioadmit-parkdone", Arg: firstHalf}, Sym{Op: "endboth", Arg: "infirst"},
+				Sym{Op: "ioadmit", Arg: second}, Sym{Op: "probe"}, Sym{Op: "iodone"}, Sym{Op: "probe"}, in("n"), o("n"), Sym{Op: "probe"}))
 		}
 	}
 	// half admitted first, sibling refused afterwards
